@@ -550,7 +550,7 @@ func (c *compiler) compile(tok *token) []instruction {
 	case "return":
 		if len(tok.Tokens) == 1 && tok.Tokens[0].Symbol == "call" {
 			returns := c.compileAll(tok.Tokens)
-			returns[len(returns)-1].B = reg(c.Returns[len(c.Returns)-1])
+			setCallReturns(returns, c.Returns[len(c.Returns)-1])
 			res = append(res, returns...)
 			res = append(res, instruction{Code: codeReturn, A: reg(c.Returns[len(c.Returns)-1])})
 			break
@@ -908,6 +908,16 @@ func (c *compiler) compileAll(tokens []*token) []instruction {
 		res = append(res, c.compile(t)...)
 	}
 	return res
+}
+
+// setCallReturns asks the call that ends ins for n results. Builtins and conversions also parse
+// as calls but end in other instructions, whose operands mean something else (APPEND: B is the
+// spread flag) and are left alone.
+func setCallReturns(ins []instruction, n int) {
+	last := &ins[len(ins)-1]
+	if last.Code == codeCall || last.Code == codeCallVariadic {
+		last.B = reg(n)
+	}
 }
 
 func (c *compiler) optimize(in []instruction) []instruction {
